@@ -49,6 +49,7 @@ for pid in ids:
     checks.append({
         "property_id": pid, "quick_cmd": cmd(pid, "quick"), "thorough_cmd": cmd(pid, "thorough"),
         "evidence_file": f"/verif/evidence/{pid}.json", "engine": c.get("engine", "S"),
+        **({"replay_cmd_template": f"bin/check {pid} --replay {{path}}"} if c.get("replay", pid in ("C01","C02","C03","C04","C05","C06","C17")) else {}),
         "level_claimed": {"category": c["level"], "text": c["text"], "design_ref": c["design"]},
         "level_note": c.get("note", LOCKFAM_NOTE), "technique": c["technique"]})
 
